@@ -310,14 +310,19 @@ func c03Engine(c *caseCtx) (res caseResult) {
 			}
 			return t
 		}
-		if !waitFor(wd/3, func() bool { return sum() == total }) {
+		if fin1, stalled := settle(wd, 10*time.Second, func() bool { return sum() == total }, sum); !fin1 {
+			if !stalled {
+				res.inconclusive("round %d: %d of %d processed within the watchdog, still progressing", round, sum(), total)
+				return
+			}
 			before := sum()
-			// prove by state that the rest is sitting in an idle inbox: one kick per actor makes it appear
+			// nothing has been processed for 10 s. Prove by state that the rest is sitting in an idle inbox:
+			// one kick per actor makes it appear
 			for _, p := range pids {
 				e.Send(p, kickMsg{})
 			}
-			if waitFor(wd/3, func() bool { return sum() == total }) {
-				res.violate("round %d: senders fell silent with %d of %d messages processed; the remaining %d were processed only after a further message kicked the actor (lost wake-up)", round, before, total, total-before)
+			if fin2, _ := settle(wd/3, 10*time.Second, func() bool { return sum() == total }, sum); fin2 {
+				res.violate("round %d: senders fell silent with %d of %d messages processed and nothing moved for 10 s; the remaining %d were processed only after a further message kicked the actor (lost wake-up)", round, before, total, total-before)
 			} else {
 				res.inconclusive("round %d: %d of %d processed, also after a kick", round, sum(), total)
 			}
